@@ -74,10 +74,14 @@ CHECKS = {
             "definition survives iff its identifier is reachable (inductive relation: cue, run, used region, style inheritance); the "
             "marking function equals that relation (with a fuel-sufficiency argument = termination on cycles); references left resolve "
             "(wf_refs preserved); cues untouched; empty list untouched; idempotent; RemoveStyling leaves no styling and keeps times, "
-            "text, voices, order. Extracted model vs Optimize/RemoveStyling on random graphs; independent Go reachability oracle.",
-            "Rocq proof over a Gallina model + extracted-model differential correspondence",
+            "text, voices, order. On TTML documents (the format with style inheritance and region styles): a definition survives exactly "
+            "when reachable, idempotent, representability preserved, and the optimized document is written, parsed and read back "
+            "THROUGH BYTES with the same cues and metadata as the original, for every indent option. Extracted models vs "
+            "Optimize/RemoveStyling on random graphs and vs Optimize on documents read by ReadFromTTML (full value comparison); "
+            "independent Go reachability oracles; write/read round trip after optimizing.",
+            "Rocq proof over Gallina models (generic cue list and TTML document) + extracted-model differential correspondence",
             "pointers are modelled by identifiers under the well-formedness 'every pointer is the map entry for its ID', which the "
-            "generators respect; the write/read-back half is exercised under C07."),
+            "generators respect; the write/read-back half for the other formats is exercised under C07 (styled sources with Optimize)."),
     "C16": (True,
             "Theorems for every non-negative int64 instant (no 100 h bound) and k in 1..3 fraction digits, separator ',' or '.': the "
             "rendering has the format's grammar (two-digit minutes/seconds below 60, exactly k fraction digits), the reader maps it to "
@@ -103,46 +107,61 @@ CHECKS = {
             "float operations (assumption, exercised by the bit-exact comparison); int64 conversion of in-range values truncates."),
     "C17": (True,
             "Theorems for all byte strings and all schedules of read sizes (zero-length reads, data with EOF, any number of reads): the "
-            "tokens delivered by the line scanner are exactly lines(data) (LF, CRLF, lone CR each one break), so the SubRip reader model "
-            "is schedule-independent; the split function is stable under extension of the buffer; an STL block present in full is "
-            "returned whole for every schedule. Tie: the scanner and readNBytes are run through verif hooks under harness-controlled "
-            "readers against the extracted model (exhaustive over {a,CR,LF}^<=5 x every split); every reader of every format is run "
-            "on every single split point / one-byte reads / random chunkings / 4096-65536-aligned splits and compared with its one-shot result.",
-            "Rocq proof over a scanner/block-reader model + extracted-model correspondence + exhaustive split-point enumeration",
+            "tokens delivered by the line scanner are exactly lines(data) (LF, CRLF, lone CR each one break), so the SubRip, WebVTT and "
+            "SSA/ASS reader models are schedule-independent; the split function is stable under extension of the buffer; an STL block "
+            "present in full is returned whole for every schedule, fewer bytes give end-of-file (none) or an error (some), and the STL "
+            "reader with its blocks obtained through readNBytes under ANY schedule equals the one-shot reader. Tie: the scanner, "
+            "readNBytes and the STL reader under harness-controlled schedules against the extracted models (exhaustive over "
+            "{a,CR,LF}^<=5 x every split); every reader of every format is run on every single split point / one-byte reads / random "
+            "chunkings / 4096-65536-aligned splits and compared with its one-shot result.",
+            "Rocq proof over scanner/block-reader/reader models + extracted-model correspondence + exhaustive split-point enumeration",
             "bufio.Scanner's buffer mechanics (growth, compaction, ErrTooLong) are a library contract: the model is the abstract scanner "
-            "in which each read appends an arbitrary prefix of the unread bytes; WebVTT/SSA reader models are not written yet, TTML "
-            "(encoding/xml) and teletext (astits) delegate to libraries: those are covered by the schedule enumeration only; no "
-            "transport-stream documents are generated yet."),
+            "in which each read appends an arbitrary prefix of the unread bytes; TTML hands the stream to xml.Decoder and teletext to "
+            "astits: their read loops are named contracts (the models start after them and have no schedule parameter), covered by the "
+            "schedule enumeration on the implementation."),
     "C18": (True,
-            "Theorems: the SubRip reader model returns an error whenever the scanner stopped on an error, whatever was delivered before; "
-            "a writer modelled as its list of checked Write calls fails when the destination fails before the end of the document and "
-            "hands over every byte otherwise (instantiated for the SubRip writer). Tie: every reader is run with a read fault injected at "
-            "every offset (sampled on big documents; TTML up to the end of the root element), on lines of 2^16..2^20 bytes, every writer "
-            "against a destination failing after k bytes for every k, and the file helpers on missing/uncreatable paths.",
+            "Theorems: the SubRip, WebVTT and SSA/ASS reader models return an error whenever the scanner stopped on an error (a read "
+            "fault at any offset under any schedule, or an over-long line), whatever was delivered before; the STL reader returns an "
+            "error for a stream failing after any prefix under any schedule - also exactly on a block boundary - and for an end-of-file "
+            "inside a block; a writer modelled as its list of checked Write calls fails when the destination fails before the end of "
+            "the document and hands over every byte otherwise: instantiated for the SubRip and WebVTT writers (one Write), the SSA/ASS "
+            "writer (up to three), the STL writer (one per block), and the TTML writer for ANY cut of its bytes into checked Writes. "
+            "Tie: every reader is run with a read fault injected at every offset (sampled on big documents; TTML up to the end of the "
+            "root element), on lines of 2^16..2^20 bytes, every writer against a destination failing after k bytes for every k, the STL "
+            "reader/writer fault models against the implementation, and the file helpers on missing/uncreatable paths.",
             "Rocq proof over reader/writer error-propagation models + exhaustive fault-offset enumeration on the implementation",
-            "level is fault enumeration for WebVTT, SSA, TTML, STL (no Coq reader models yet); the SSA writer is exercised only with "
-            "metadata present; teletext streams are not generated yet."),
+            "xml.Decoder/Encoder buffering (TTML) and the transport-stream demultiplexer (teletext) are contracts: for them the level is "
+            "fault enumeration on the implementation; the file-level helpers are exercised, not modelled."),
     "C19": (True,
             "Theorems: for any function folded over the SORTED keys of a definition map, the result does not depend on the order in "
-            "which the runtime ranges over the map (the mechanism every map-ranging writer uses after the repair); sorting forgets the "
-            "iteration order; the SubRip writer model is a function of the cue list alone. Byte-level determinism and purity of all five "
-            "writers are decided on the implementation: each generated list (0..6 styles with heterogeneous SSA attribute sets, WebVTT "
-            "style blocks spread over several styles, regions, metadata) is written 50 times in-process, once in each of 4 other processes "
-            "and in 6 writer orders, with deep snapshots of the list before/after and a moving clock when the metadata supplies the STL dates.",
-            "Rocq proof of the sorted-range mechanism (partial) + repeated-write / cross-process byte comparison on the implementation",
-            "partial: no Gallina model of the WebVTT/SSA/TTML/STL writers yet, so for them determinism and purity rest on the repeated-write "
-            "comparison (Go's map iteration is randomised per range statement, so 50 repetitions x 5 processes exercise many orders)."),
+            "which the runtime ranges over the map; sorting forgets the iteration order; the WebVTT and SSA/ASS writer models take the "
+            "iteration orders of their maps as parameters and their bytes are independent of them; the TTML writer's bytes are a function "
+            "of (indent, value) invariant under permutation of the style/region tables; the STL writer ranges over no map and depends on "
+            "the clock only through the two GSI date fields (offsets 224..235), not at all when the metadata supplies both dates; the "
+            "SubRip writer is a function of the cue list alone. The models being pure functions, 'the input is untouched' holds of them "
+            "by construction; for the real writers purity and byte-level determinism are decided on the implementation: each generated "
+            "list (0..6 styles with heterogeneous SSA attribute sets, WebVTT style blocks spread over several styles, regions, metadata) "
+            "is written 50 times in-process, once in each of 4 other processes and in 6 writer orders, with deep snapshots of the list "
+            "before/after and a moving clock when the metadata supplies the STL dates; every writer model's bytes equal the library's "
+            "on every case of C01-C05.",
+            "Rocq proof over the writer models (map-order and clock independence) + repeated-write / cross-process byte comparison on the implementation",
+            "Go's map iteration is randomised per range statement, so 50 repetitions x 5 processes exercise many orders; purity of the "
+            "real writers (no mutation of the caller's list) is observed through deep snapshots only."),
     "C08": (True,
-            "Theorems: the SubRip reader model returns Ok or Err - never Panic - for every token list, hence for every byte string under "
-            "every delivery schedule, and the SubRip writer model for every cue list; the cue-list operations are total functions. "
-            "For the other readers/writers the property is decided on the implementation: every reader (all option values, and the "
-            "extension-dispatching opener) on valid documents, structure-aware mutations/truncations/splices, wrong-format documents, "
-            "random bytes, transport streams with malformed PES payloads / data units / teletext packets inside a valid packet layer; "
-            "every writer on cue lists with every optional part absent and hostile text; all under recover() and a 5 s watchdog. Panics "
-            "that originate inside the third-party demultiplexer are excluded, as the property states.",
-            "Rocq totality proof for the SubRip models (partial) + structure-aware mutation under recover()/watchdog on the implementation",
-            "partial: exploration level for WebVTT, SSA, TTML, STL, teletext (no Gallina models of those readers yet); running time is "
-            "only observed through the watchdog."),
+            "Theorems (result never Panic, every loop structural or fuelled with a sufficiency argument): the SubRip reader for every "
+            "token list - hence every byte string under every delivery schedule - and writer for every cue list; the WebVTT reader and "
+            "writer; the SSA/ASS reader and writer (any document value, any map order); the EBU STL reader on any byte string in one "
+            "shot or under any block schedule and writer on any metadata / cue list / clock; the TTML reader on any XML tree (and on any "
+            "bytes through the XML parser model) and writer on any document value; the teletext reader on any delivered list of PES "
+            "payloads of arbitrary bytes; the cue-list operations are total functions. Tie and the rest of the quantifier on the "
+            "implementation: every reader (all option values, and the extension-dispatching opener) on valid documents, structure-aware "
+            "mutations/truncations/splices, wrong-format documents, random bytes, transport streams with malformed PES payloads / data "
+            "units / teletext packets inside a valid packet layer (the teletext model is value-compared on the hostile payloads); every "
+            "writer on cue lists with every optional part absent and hostile text; all under recover() and a 5 s watchdog. Panics that "
+            "originate inside the third-party demultiplexer are excluded, as the property states.",
+            "Rocq totality proofs for the six reader and five writer models + structure-aware mutation under recover()/watchdog on the implementation",
+            "not reached by the models: encoding/xml's tokenizer on arbitrary bytes, the transport-stream demultiplexer and PID detection, "
+            "html tokenizer outside html_simple; running time is only observed through the watchdog."),
     "C07": (True,
             "Theorems: the codec dispatch is case-insensitive, an unsupported extension yields the invalid-extension error for reading "
             "and writing, .ts is read-only, an empty list yields nothing-to-write; for ALL representable documents the SubRip -> WebVTT "
@@ -153,7 +172,13 @@ CHECKS = {
             "styled SubRip document x sequence of 0..4 operations incl. merge with a second document): for ALL representable SubRip documents "
             "and ALL sequences of sync/fragment/unfragment/order/optimize/linear correction/merge every resulting cue carries the lines of a "
             "source cue and, when the times produced are non-negative, the converted SubRip or WebVTT file reads back as exactly the "
-            "transformed list. The 7x6 conversion matrix is decided on "
+            "transformed list. EVERY PAIR of the five writable codecs through the plain view (start, end, text of each line): each "
+            "codec is proved plain-faithful at its time unit (SubRip, WebVTT, TTML at byte level: 1 ms; SSA/ASS: 10 ms; EBU STL: 40 ms) - "
+            "every acceptable unstyled cue list is written to a document that reads back with the same cues, order and texts, times "
+            "truncated - and the generic theorems C07_pair / C07_pair_ops compose any two of them, with any sequence of operations in "
+            "between, into the property's conversion statement; the library's destination BYTES are compared with the composed model "
+            "for all 25 pairs (two restricted with the stated reason: STL sources carry reader-set cue settings / language that the "
+            "WebVTT / TTML writers emit) with and without operations, and every reader's cues with the model's. The 7x6 conversion matrix is decided on "
             "the implementation: sources rendered by the harness's own encoders (SubRip renderer, minimal WebVTT/SSA/TTML renderers, an "
             "EBU STL encoder for display standards 0/1/2, a teletext-in-TS encoder through the astits muxer) from ground-truth cue lists, "
             "0..4 operations with random parameters through the library and one through the built CLI binary, the destination re-read and "
@@ -161,8 +186,10 @@ CHECKS = {
             "semantics of the operations; the CLI additionally on unordered/overlapping lists with operation parameters spanning the whole "
             "time range; styled and metadata-bearing sources (documents of the C01/C02/C04 generators, TTML with regions and styles carrying "
             "random attribute subsets) to every destination with and without Optimize; extension dispatch compared with the extracted model.",
-            "Rocq proof of the dispatch model and of the SubRip/WebVTT conversions (partial) + conversion matrix through file API and CLI on the implementation",
-            "partial: the pairwise theorems exist for the SubRip/WebVTT pairs only (the other codec models are being built); the "
+            "Rocq proof of the dispatch model, of every codec pair through the plain view with operation sequences in between, and of the styled SubRip/WebVTT conversions + byte-level correspondence of the composed models + conversion matrix through file API and CLI on the implementation",
+            "partial: for styled cues the pairwise theorems exist for the SubRip/WebVTT pairs only (what crosses between other formats "
+            "for styled cues - attribute propagation, inherited metadata - is decided by the matrix oracle on the implementation); "
+            "teletext sources and the CLI are decided on the implementation; the "
             "operation-sequence theorems go through Kit/Float64.v (linear correction), hence the standard-library Reals axioms that Flocq "
             "brings in (listed in the evidence); the content tag of Model/ConvOps.v (source index carried in the style-pointer field, which "
             "the SubRip/WebVTT readers never set) is a modelling device checked by the byte comparison; coloured "
@@ -193,8 +220,7 @@ CHECKS = {
             "xml_simple: no comments/PI/CDATA/CR/white-space character references inside the root); for writer output the contract is "
             "replaced by the parser theorem plus a per-case comparison of Go's decoder with the Coq parser; theorems that mention the "
             "reader print the four standard-library Reals axioms Flocq brings in (ClassicalDedekindReals.sig_not_dec, sig_forall_dec, "
-            "functional_extensionality_dep, Classical_Prop.classic); fractional frame/tick counts (12.5f) are truncated by the library "
-            "(int field pinned by the repository's tests) and are outside the generator; regexp = hand matchers; details in notes/C03.md."),
+            "functional_extensionality_dep, Classical_Prop.classic); regexp = hand matchers; details in notes/C03.md."),
     "C04": (True,
             "Executable Gallina model of the SSA/ASS reader and writer (Model/Ssa.v: line scanning, sections, comments, the Format map "
             "with its overlay quirk, style rows, event rows with surplus commas folded into the last column, colours, booleans, numbers, "
